@@ -96,6 +96,9 @@ func c07(r *Report) propMeta {
 	r.ArgHas("stored-feeds-are-recomputed", fe, "Keeper.SetCurrentFeeds", 1, 1, "^call:Keeper.CalculateNewCurrentFeeds")
 	r.Callers("callers", fK+"SetCurrentFeeds", []string{fe, fK + "InitGenesis", "x/feeds.InitGenesis"}, []string{fe})
 
+	r.Rule("C07.R6", "store-key agreement: every point read/delete addresses a written key family")
+	r.StoreKeyAgreement("store-keys", "feeds", 9, nil)
+
 	return propMeta{
 		Decided: []string{
 			"R1 the power handed to restake.SetLockedPower is accumulated in sdkmath.Int from each signal's power, with no native-width + or * on message-supplied powers nor through any callee that accumulates in native width (e.g. types.SumPower); the lock is attempted on every path and its error propagates; each power > 0 and signal ids are unique",
@@ -103,6 +106,7 @@ func c07(r *Report) propMeta {
 			"R3 diffs are applied in sorted key order (collect + sort.Strings), new total = stored total + diff, negative totals rejected; the diff map subtracts the old vote and adds the new one",
 			"R4 SetSignalTotalPower deletes the index entry built from the STORED record before any new entry is written, writes record and index from one value, removes the record at power 0; total-power store and index have single writers",
 			"R5 current feeds: top MaxCurrentFeeds of the reverse by-power index, kept only when CalculateInterval > 0 (power >= threshold), recomputed every CurrentFeedsUpdateInterval blocks",
+			"R6 every KV-store Get/Has/Delete of x/feeds uses a key builder of x/feeds/types that some Set of the module also uses (a probe of an iteration prefix or of a sibling family is always-empty state)",
 		},
 		Undecided: []string{"drift of totals over re-vote histories (history arithmetic)", "CalculateInterval numerics", "power lost after voting through paths restake does not guard (slashing)"},
 		Assume:    []string{"msg handlers atomic", "sdkmath.Int exact"},
